@@ -647,6 +647,9 @@ example : Codec.decIsKey ⟨false, (if 4602678819172646912 / 2 ^ 52 = 0 then 460
     else 2 ^ 52 + 4602678819172646912 % 2 ^ 52) * 5 ^ 53, -((53 : Nat) : Int)⟩ ((4602678819172646912 : Nat) : Int) = true :=
   C04_decimal_exact_frac_accepted 4602678819172646912 53 (by decide) (by decide) (by decide)
 example : Codec.decIsKey ⟨false, 5, -1⟩ 4602678819172646912 = true := by decide
+-- the hypotheses of C04_decimal_functional are met by a real pair (text 0.1, its key)
+example : ∀ k', Codec.decIsKey ⟨false, 1, -1⟩ k' = true → (4591870180066957722 : Int) = k' :=
+  fun k' h' => C04_decimal_functional _ _ k' (by decide) h'
 -- -0.1
 example : Codec.decIsKey ⟨true, 1, -1⟩ (-4591870180066957722) = true := by decide
 
